@@ -16,7 +16,10 @@ type Config struct {
 	Helpers   int
 	Entries   int
 	Overrides bool // generate override declarations (C14 profile)
-	Hostile   bool // C15: unguarded dynamic indices / raw shifts / raw float->int on runtime data
+	Hostile   bool // C15: raw shifts / raw float->int on runtime data
+	HostileIx bool // C15: unguarded dynamic indices (only meaningful with a bounds-check policy)
+	// HostileIxSkip (optional) excludes containers rooted in the given variable from unguarded indexing
+	HostileIxSkip func(root *Var) bool
 	MultiInv  bool // workgroup_size > 1 with invocation-indexed output
 }
 
@@ -238,6 +241,13 @@ func (g *Gen) step(p path) (path, bool) {
 	return p, false
 }
 
+func (g *Gen) hostileIx(p path) bool {
+	if !g.Cfg.HostileIx {
+		return false
+	}
+	return g.Cfg.HostileIxSkip == nil || p.root == nil || !g.Cfg.HostileIxSkip(p.root)
+}
+
 // indexFor yields an index expression valid for a container of n elements (n==0: runtime-sized => guarded by arrayLength).
 func (g *Gen) indexFor(n int, p path) Expr {
 	r := g.R
@@ -255,6 +265,12 @@ func (g *Gen) indexFor(n int, p path) Expr {
 		al := &Builtin{Name: "arrayLength", Args: []Expr{&AddrOf{X: p.e, Ty: g.U.Ptr("storage", p.t, "")}}, Ty: U32}
 		if r.Chance(1, 3) {
 			return &Lit{Ty: U32, I: 0}
+		}
+		if g.hostileIx(p) && g.fx != nil && g.exprDepthLeft() > 0 && r.Chance(1, 2) {
+			if e := g.genExprNoSideFx(U32, 1); !Constish(e) {
+				g.feat("index.hostile.runtime-array")
+				return e
+			}
 		}
 		return &Binary{Op: "%", L: g.genExprNoSideFx(U32, 1), R: al, Ty: U32}
 	}
@@ -274,12 +290,18 @@ func (g *Gen) indexFor(n int, p path) Expr {
 		}
 	}
 	g.feat("index.dynamic")
-	if g.Cfg.Hostile && r.Chance(1, 2) {
-		g.feat("index.hostile")
+	if g.hostileIx(p) && r.Chance(1, 2) {
+		// the index must be a run-time value: an out-of-range const-expression index is a shader-creation error
+		t := U32
 		if r.Bool() {
-			return g.genExprNoSideFx(U32, 1)
+			t = I32
 		}
-		return g.genExprNoSideFx(I32, 1)
+		for try := 0; try < 6; try++ {
+			if e := g.genExprNoSideFx(t, 1); !Constish(e) {
+				g.feat("index.hostile")
+				return e
+			}
+		}
 	}
 	switch r.Intn(3) {
 	case 0:
